@@ -90,6 +90,27 @@ impl DiameterServer {
         }
     }
 
+    /// Runs the per-connection loop on an arbitrary stream (verification harness only).
+    #[cfg(feature = "verif-hooks")]
+    pub async fn verif_serve_stream<F, Fut, S>(
+        stream: S,
+        handler: F,
+        dict: Arc<Dictionary>,
+    ) -> Result<()>
+    where
+        F: Fn(DiameterMessage) -> Fut,
+        Fut: Future<Output = Result<DiameterMessage>>,
+        S: AsyncReadExt + AsyncWriteExt + Unpin,
+    {
+        Self::process_incoming_message(stream, handler, dict).await
+    }
+
+    /// Address the listener is bound to (verification harness only).
+    #[cfg(feature = "verif-hooks")]
+    pub fn verif_local_addr(&self) -> std::io::Result<SocketAddr> {
+        self.listener.local_addr()
+    }
+
     fn handle_peer<F, Fut, S>(peer_addr: SocketAddr, stream: S, handler: F, dict: Arc<Dictionary>)
     where
         F: Fn(DiameterMessage) -> Fut + Clone + Send + 'static,
